@@ -87,6 +87,10 @@ class ImplCheck:
             ar = g['ar']
             g.setdefault('EI', [True] * ar.ns)
             g.setdefault('SI', [True] * ar.ns)
+            if 'qinit' in d:
+                # the initial-condition form under which the instance is
+                # known to exercise its defect (otherwise drawn at random)
+                g['qinit'] = d['qinit']
             out.append(g)
         return out
 
@@ -177,6 +181,7 @@ class ImplCheck:
             terms = []
             for (moore, plus_one) in MODES:
                 q = ctx.rng.choice(QINITS)
+                q = g.get('qinit') or q     # pinned by a corpus instance
                 try:
                     r = self.build(g, moore, plus_one, q)
                 except Exception as e:
